@@ -23,6 +23,8 @@ type c13Down struct {
 	url   string
 	w     http.ResponseWriter
 	reply int
+	// Request.Trailer as seen before and after the body was read to its end
+	trailerBefore, trailerAfter http.Header
 }
 
 var c13Replies = []string{"plain-200", "status-418+headers", "trailers-both-styles", "flush-between-writes", "no-write", "content-length+body", "status-204"}
@@ -30,7 +32,9 @@ var c13Replies = []string{"plain-200", "status-418+headers", "trailers-both-styl
 func (d *c13Down) ServeHTTP(w http.ResponseWriter, r *http.Request) {
 	d.calls++
 	d.seen = drive.Capture(r)
+	d.trailerBefore = d.seen.TrailerAfterBody()
 	d.seen.ReadBody(r.Body, []int{7})
+	d.trailerAfter = d.seen.TrailerAfterBody()
 	d.w = w
 	h := w.Header()
 	switch c13Replies[d.reply] {
@@ -245,6 +249,16 @@ func init() {
 				spec.Body.Cuts = []int{cuts}
 			}
 		}
+		if spec.Body != nil && !spec.NoBody && spec.ContentLength == -1 {
+			// request trailers (chunked HTTP/1.1 / HTTP/2 trailing HEADERS): net/http announces the
+			// keys in Request.Trailer and fills the values in when the body reaches EOF
+			switch c.Choose("request-trailers", 3) {
+			case 1:
+				spec.Trailer = http.Header{"X-Checksum": {"abc123"}}
+			case 2:
+				spec.Trailer = http.Header{"X-Checksum": {"abc", "def"}, "Grpc-Status": {"0"}, "X-Bin-Bin": {"AAE"}}
+			}
+		}
 		if pm := c.Choose("http2", 2); pm == 1 && spec.ProtoMajor != 2 {
 			spec.ProtoMajor = 2
 		}
@@ -319,6 +333,14 @@ func init() {
 		diff("TransferEncoding", orig.TransferEnc, s.TransferEnc)
 		diff("Header", map[string][]string(orig.Header), map[string][]string(s.Header))
 		diff("Body", string(origBody), string(s.Body))
+		if spec.Trailer != nil && s.ReadErr == "" {
+			announced := map[string][]string{}
+			for k := range spec.Trailer {
+				announced[k] = nil
+			}
+			diff("Trailer (before the body is read: announced keys)", announced, map[string][]string(down.trailerBefore))
+			diff("Trailer (after the body was read to EOF)", map[string][]string(spec.Trailer), map[string][]string(down.trailerAfter))
+		}
 		// response
 		st, hdr, body, tr, fl := c13Expected(down.reply)
 		got := fmt.Sprintf("%d|%s|%q|%s|%d", rec.Status, drive.CanonHeader(rec.Snapshot), rec.BodyBytes.String(), drive.CanonHeader(rec.Trailers), len(rec.Flushes))
@@ -332,7 +354,7 @@ func init() {
 		Level: "exploration",
 		Rule: "11 client wire forms (protocol x codec x compression incl. alt/rev) x 3 target-protocol sets x 2 codec sets that accept the client's triple, and 12 unmatched request classes with an unknown-endpoint handler; " +
 			"up to D deviations: 2 extra headers out of 23 (control headers of every protocol, multi-valued, raw lower-case keys, Content-Length), 9 query strings incl. bad escapes and ForceQuery, 7 arbitrary bodies, " +
-			"declared/unknown/zero content length, body segmentation, HTTP/2, 7 downstream reply scripts. Non-trivial = forwarded request carrying at least one header that the transcoding path strips.",
+			"declared/unknown/zero content length, body segmentation, request trailers (announced keys, values that appear at body EOF), HTTP/2, 7 downstream reply scripts. Non-trivial = forwarded request carrying at least one header that the transcoding path strips.",
 		Assume:       []string{"Proto is compared numerically (major, minor); the request context is exempt"},
 		Scenarios:    []Scenario{{Name: "forwarding", Fn: scn, QuickBound: 2, ThoroughBound: 3}},
 		RequireNotes: []string{"forwarded", "not-forwarded"},
